@@ -11,7 +11,6 @@ import (
 	"sort"
 	"strings"
 
-	"golang.org/x/tools/go/callgraph"
 	"golang.org/x/tools/go/ssa"
 
 	"vischeck/internal/core"
@@ -104,40 +103,14 @@ func opcodeNames(w *core.World) map[int64]string {
 	return out
 }
 
-// reachable computes the set of functions reachable in the CHA call graph of P_L from roots,
-// recording one predecessor edge per function so that a path can be printed.
-func reachable(w *core.World, roots []*ssa.Function) (map[*ssa.Function]bool, map[*ssa.Function]*callgraph.Edge) {
-	cg := w.CG()
-	seen := map[*ssa.Function]bool{}
-	pred := map[*ssa.Function]*callgraph.Edge{}
-	var work []*ssa.Function
-	for _, f := range roots {
-		if f != nil && !seen[f] {
-			seen[f] = true
-			work = append(work, f)
-		}
-	}
-	for len(work) > 0 {
-		f := work[0]
-		work = work[1:]
-		n := cg.Nodes[f]
-		if n == nil {
-			continue
-		}
-		for _, e := range n.Out {
-			c := e.Callee.Func
-			if !seen[c] {
-				seen[c] = true
-				pred[c] = e
-				work = append(work, c)
-			}
-		}
-	}
-	return seen, pred
+// reachable computes the set of functions reachable in the class-hierarchy call graph of P_L from
+// roots, recording one predecessor edge per function so that a path can be printed.
+func reachable(w *core.World, roots []*ssa.Function) (map[*ssa.Function]bool, map[*ssa.Function]*core.CGEdge) {
+	return w.Reachable(roots)
 }
 
 // callPath renders the call path from a root to f found by reachable.
-func callPath(w *core.World, pred map[*ssa.Function]*callgraph.Edge, f *ssa.Function) string {
+func callPath(w *core.World, pred map[*ssa.Function]*core.CGEdge, f *ssa.Function) string {
 	var parts []string
 	for i := 0; f != nil && i < 40; i++ {
 		e := pred[f]
@@ -150,7 +123,7 @@ func callPath(w *core.World, pred map[*ssa.Function]*callgraph.Edge, f *ssa.Func
 			pos = e.Site.Pos()
 		}
 		parts = append(parts, fmt.Sprintf("%s (called at %s)", core.FuncQName(f), w.Pos(pos)))
-		f = e.Caller.Func
+		f = e.Caller
 	}
 	for i, j := 0, len(parts)-1; i < j; i, j = i+1, j-1 {
 		parts[i], parts[j] = parts[j], parts[i]
@@ -446,11 +419,8 @@ func callErr(c ssa.CallInstruction) ssa.Value {
 // isErrorReturn: the return can only yield a non-nil error (fresh error, or behind an edge on
 // which the returned error value is known non-nil).
 func isErrorReturn(ret *ssa.Return) bool {
-	if len(ret.Results) == 0 {
-		return false
-	}
-	last := ret.Results[len(ret.Results)-1]
-	if last.Type().String() != "error" {
+	last := core.ReturnError(ret)
+	if last == nil {
 		return false
 	}
 	if core.IsNilConst(last) {
@@ -471,6 +441,9 @@ func isErrorReturn(ret *ssa.Return) bool {
 func successReturns(fn *ssa.Function) []*ssa.Return {
 	var out []*ssa.Return
 	for _, b := range fn.Blocks {
+		if b == fn.Recover {
+			continue
+		}
 		if ret, ok := b.Instrs[len(b.Instrs)-1].(*ssa.Return); ok && !isErrorReturn(ret) {
 			out = append(out, ret)
 		}
